@@ -663,3 +663,27 @@ func collectEnumPartitions(pk *packages.Package) []*enumSwitchPartition {
 	}
 	return out
 }
+
+// ---- counter direction ----
+
+func dirOfName(s string) string {
+	l := strings.ToLower(s)
+	switch {
+	case strings.HasPrefix(l, "rx"):
+		return "rx"
+	case strings.HasPrefix(l, "tx"):
+		return "tx"
+	}
+	return ""
+}
+
+func dirOfFunc(s string) string {
+	l := strings.ToLower(s)
+	switch {
+	case strings.HasPrefix(l, "read"), strings.HasPrefix(l, "decode"), strings.HasPrefix(l, "receive"):
+		return "rx"
+	case strings.HasPrefix(l, "write"), strings.HasPrefix(l, "encode"), strings.HasPrefix(l, "send"):
+		return "tx"
+	}
+	return dirOfName(s)
+}
